@@ -23,6 +23,15 @@ import (
 func init() {
 	sim.OtherEngines["codec"] = RunWorker
 	sim.OtherReplays["codec"] = ReplayFile
+	sim.OtherDumps["codec"] = func(verifSeed uint64, prop string, n int64, binDir string) string {
+		var sb strings.Builder
+		for i := int64(0); i < n; i++ {
+			s := Gen(sim.RunSeed(verifSeed, prop, i))
+			r := Run(s)
+			fmt.Fprintf(&sb, "%d %s %016x v=%d calls=%d\n", i, s.Kind, r.TraceHash, len(r.Violations), r.Calls)
+		}
+		return sb.String()
+	}
 }
 
 // Result of one codec scenario.
